@@ -692,3 +692,112 @@ def tuplepat_fns(text, features):
 def tuplepat_unit(text, features):
     body, fns = tuplepat_fns(text, features)
     return "use vstd::prelude::*;\nverus! {\n" + TUPLEPAT_MODEL + body + vlib.verus_canary("canary_tuplepat", "x: u64", []) + "\n} // verus!\nfn main() {}\n", fns
+
+
+# ---- the array arm of pattern_matches_value_with_semantics -----------------------------------------------------------------------------------
+ARRAYPAT_MODEL = """
+pub struct PatternTuple(pub Vec<Pattern>);
+pub struct PatternArraySpread { pub binding: Option<Box<Pattern>> }
+pub struct PatternArray { pub prefix: Vec<Pattern>, pub spread: Option<PatternArraySpread>, pub suffix: Vec<Pattern> }
+pub enum Pattern { Tuple(PatternTuple), Array(PatternArray), Other(u64) }
+pub struct Value { pub id: u64 }
+pub struct MechError { pub id: u64 }
+pub struct Interpreter { pub id: u64 }
+#[derive(Clone, Copy)]
+pub struct PatternMatchSemantics { pub id: u64 }
+pub struct Environment { pub st: Ghost<int> }
+pub uninterp spec fn pm_res(pat: Pattern, v: Value, sem: u64, st: int) -> Option<bool>;       // the matcher on one (pattern, value) pair; None = error
+pub uninterp spec fn pm_env(pat: Pattern, v: Value, sem: u64, st: int) -> int;                 // .. and the environment it leaves
+pub uninterp spec fn mlv(v: Value) -> Option<Seq<Value>>;                                        // matrix_like_values: the elements of a matrix-like value
+pub uninterp spec fn middle(v: Value, a: int, b: int) -> Value;                                  // capture_middle_matrix: elements a..b as a row
+#[verifier::external_body]
+pub fn pattern_matches_value_with_semantics_rec(pattern: &Pattern, value: &Value, env: &mut Environment, p: &Interpreter, semantics: PatternMatchSemantics) -> (r: Result<bool, MechError>)
+  ensures (match r { Ok(b) => pm_res(*pattern, *value, semantics.id, old(env).st@) == Some(b), Err(_) => pm_res(*pattern, *value, semantics.id, old(env).st@) is None }),
+    final(env).st@ == pm_env(*pattern, *value, semantics.id, old(env).st@),
+{ unimplemented!() }
+#[verifier::external_body]
+pub fn matrix_like_values(v: &Value) -> (r: Option<Vec<Value>>)
+  ensures (match r { Some(x) => mlv(*v) == Some(x@), None => mlv(*v) is None }),
+{ unimplemented!() }
+#[verifier::external_body]
+pub fn capture_middle_matrix(v: &Value, start: usize, end: usize) -> (r: Value) ensures r == middle(*v, start as int, end as int), { unimplemented!() }
+pub open spec fn zip_len(a: int, b: int) -> int { if a <= b { a } else { b } }
+#[verifier::external_body]
+pub fn zip_count(a: usize, b: usize) -> (r: usize) ensures r == zip_len(a as int, b as int), { unimplemented!() }
+pub open spec fn outcome(r: Result<bool, MechError>) -> Option<bool> { match r { Ok(b) => Some(b), Err(_) => None } }
+// element patterns pats[k..] against vals[off+k ..], left to right in one environment, ending at the first that does not match or fails
+pub open spec fn all_match_off(pats: Seq<Pattern>, vals: Seq<Value>, off: int, k: int, sem: u64, st: int) -> (Option<bool>, int)
+  decreases pats.len() - k,
+{
+  if k < 0 || k >= pats.len() || off + k >= vals.len() { (Some(true), st) } else {
+    let st1 = pm_env(pats[k], vals[off + k], sem, st);
+    match pm_res(pats[k], vals[off + k], sem, st) {
+      None => (None, st1),
+      Some(b) => if b { all_match_off(pats, vals, off, k + 1, sem, st1) } else { (Some(false), st1) },
+    }
+  }
+}
+// ---- THE CONTRACT (C16: "an arm whose pattern matches"): an array pattern `[p1 .. pn, ...rest, s1 .. sm]` matches a matrix-like value iff the value has at least
+// n + m elements (exactly n + m without a spread), the prefix patterns match the first n elements, the suffix patterns the last m, and the spread's binding (if any)
+// matches the elements in between -- tested in that order in ONE environment
+pub open spec fn after_suffix(pa: PatternArray, v: Value, values: Seq<Value>, sem: u64, r2: (Option<bool>, int)) -> (Option<bool>, int) {
+  if r2.0 != Some(true) { r2 } else {
+    let st2 = r2.1;
+    if pa.spread is None && values.len() != pa.prefix@.len() + pa.suffix@.len() { (Some(false), st2) } else {
+      match pa.spread {
+        Some(sp) => match sp.binding {
+          Some(b) => { let cap = middle(v, pa.prefix@.len() as int, values.len() - pa.suffix@.len()); (pm_res(*b, cap, sem, st2), pm_env(*b, cap, sem, st2)) },
+          None => (Some(true), st2),
+        },
+        None => (Some(true), st2),
+      }
+    }
+  }
+}
+pub open spec fn after_prefix(pa: PatternArray, v: Value, values: Seq<Value>, sem: u64, r1: (Option<bool>, int)) -> (Option<bool>, int) {
+  if r1.0 != Some(true) { r1 } else { after_suffix(pa, v, values, sem, all_match_off(pa.suffix@, values, values.len() - pa.suffix@.len(), 0, sem, r1.1)) }
+}
+pub open spec fn array_match(pa: PatternArray, v: Value, sem: u64, st: int) -> (Option<bool>, int) {
+  match mlv(v) {
+    None => (Some(false), st),
+    Some(values) => if values.len() < pa.prefix@.len() + pa.suffix@.len() { (Some(false), st) }
+                    else { after_prefix(pa, v, values, sem, all_match_off(pa.prefix@, values, 0, 0, sem, st)) },
+  }
+}
+"""
+
+
+def arraypat_fn(text, features):
+    """the arm `Pattern::Array(pattern_array) => {..}` of `pattern_matches_value_with_semantics` as `fn array_arm(pattern_array, detached_value, env, p, semantics)`: the two element
+    loops `for (a, b) in PA.prefix.iter().zip(values.iter())` / `.. PA.suffix.iter().zip(values[suffix_start..].iter())` -> index loops over min(len) (zip semantics) reading
+    `values[off + k]`; the recursive call -> the stand-in `.._rec`; `MResult` -> `Result<_, MechError>`; cfg attributes evaluated for the default features.
+    ASSUMED: prefix.len() + suffix.len() does not overflow usize (two live Vecs)"""
+    sig, body = extract_fn(text, "pattern_matches_value_with_semantics")
+    b = apply_cfg(re.sub(r"//[^\n]*", "", body).replace("\r", ""), features)
+    m = re.search(r"Pattern::Array\(\s*(\w+)\s*\)\s*=>\s*\{", b)
+    if not m:
+        raise AnchorLost("pattern_matches_value_with_semantics: the arm `Pattern::Array(..)` not found")
+    pa = m.group(1)
+    arm = b[m.end():match_brace(b, m.end() - 1) - 1]
+    arm = re.sub(r"\s*\n\s*\.", ".", arm)                                   # method chains on one line
+    arm = arm.replace("pattern_matches_value_with_semantics(", "pattern_matches_value_with_semantics_rec(")
+    COMMON = ("mlv(detached_value) == Some(values@), values@.len() >= %s.prefix@.len() + %s.suffix@.len(), %s.prefix@.len() + %s.suffix@.len() <= usize::MAX, st0 == old(env).st@," % (pa, pa, pa, pa))
+    def loop(a_, b_, xs, off, ylen, wrap):
+        return ("let zn_ = zip_count(%s.len(), %s);\n      for z_ in 0..zn_\n"
+                "        invariant zn_ == zip_len(%s@.len() as int, (%s) as int), %s\n"
+                "          array_match(*%s, detached_value, semantics.id, st0) == %s(*%s, detached_value, values@, semantics.id, all_match_off(%s@, values@, (%s) as int, z_ as int, semantics.id, env.st@)),\n"
+                "      {\n        let %s = &%s[z_]; let %s = &values[%s + z_];" % (xs, ylen, xs, ylen, COMMON, pa, wrap, pa, xs, off, a_, xs, b_, off))
+    arm, n1 = re.subn(r"for\s+\(\s*(\w+)\s*,\s*(\w+)\s*\)\s+in\s+%s\.prefix\.iter\(\)\.zip\(\s*values\.iter\(\)\s*\)\s*\{" % pa,
+                      lambda mm: loop(mm.group(1), mm.group(2), pa + ".prefix", "0", "values.len()", "after_prefix"), arm)
+    arm, n2 = re.subn(r"for\s+\(\s*(\w+)\s*,\s*(\w+)\s*\)\s+in\s+%s\.suffix\.iter\(\)\.zip\(\s*values\[\s*(\w+)\s*\.\.\s*\]\.iter\(\)\s*\)\s*\{" % pa,
+                      lambda mm: loop(mm.group(1), mm.group(2), pa + ".suffix", mm.group(3), "values.len() - %s" % mm.group(3), "after_suffix").replace(
+                          "invariant zn_", "invariant %s == values@.len() - %s.suffix@.len(), zn_" % (mm.group(3), pa)), arm)
+    if (n1, n2) != (1, 1) or re.search(r"\b(iter|zip)\b", arm):
+        raise AnchorLost("pattern_matches_value_with_semantics: the array arm is outside the transcription rules %r" % ((n1, n2),))
+    return ("fn array_arm(%s: &PatternArray, detached_value: Value, env: &mut Environment, p: &Interpreter, semantics: PatternMatchSemantics) -> (res: Result<bool, MechError>)\n"
+            "  requires %s.prefix@.len() + %s.suffix@.len() <= usize::MAX,\n"
+            "  ensures (outcome(res), final(env).st@) == array_match(*%s, detached_value, semantics.id, old(env).st@),\n{\n  let ghost st0 = env.st@;\n" % (pa, pa, pa, pa) + arm + "\n}\n")
+
+
+def arraypat_unit(text, features):
+    return "use vstd::prelude::*;\nverus! {\n" + ARRAYPAT_MODEL + arraypat_fn(text, features) + vlib.verus_canary("canary_arraypat", "x: u64", []) + "\n} // verus!\nfn main() {}\n"
